@@ -36,3 +36,9 @@ package replay
 //@   // only new distinct entries consume capacity
 //@   ensures c != nil && c.capacity != 0 && c.previous == old(c.previous) ==> len(c.current) == old(len(c.current)) + ite(old(has(c.current, sigOf(data)) || has(c.previous, sigOf(data))), 0, 1)
 //@   ensures c != nil && c.capacity != 0 && c.previous != old(c.previous) ==> len(c.current) <= 1
+//@
+//@ // Only construction, IsDuplicate and Clear touch the two generations (C06).
+//@ struct writers ReplayCache.current = {NewCache, ReplayCache.Clear, ReplayCache.IsDuplicate}
+//@   property C06
+//@ struct writers ReplayCache.previous = {NewCache, ReplayCache.Clear, ReplayCache.IsDuplicate}
+//@   property C06
